@@ -1444,6 +1444,39 @@ def do_selftest():
     good = r["violation"] is None
     print("  MC_Lock OthersCall=atUser -> %s (%d states) %s" % ((r["violation"] or {}).get("name"), r["distinct"], "ok" if good else "UNEXPECTED"))
     ok = ok and good
+    print("== two levels, one meaning: event streams EMITTED by the design model must be accepted by the trace specification")
+    props = '{"C02", "C03", "C04", "C05", "C12", "C17", "ALL"}'
+
+    def emitted(overrides, tag):
+        cfg = tlc.make_cfg("MC_LifecycleEv_2", overrides, "ev_" + tag) if overrides else "MC_LifecycleEv_2"
+        r = tlc.check("MC_LifecycleEv", cfg, workers=1, timeout=1200, coverage=False, sim={"num": 1500, "depth": 90, "seed": vlib.seed()})
+        streams = tlc.parse_replay_lines(r["prints"])
+        uniq, seen = [], set()
+        for st in streams:
+            k = json.dumps(st, sort_keys=True)
+            if k not in seen:
+                seen.add(k)
+                uniq.append(st)
+        split = {"f1": 4, "f2": 2}
+        scen = []
+        for i, st in enumerate(uniq, 1):
+            tg = [{"ev": "Target", "f": f, "orig": [["o", f, j] for j in range(1, 5)], "split": split[f], "rwpages": []} for f in ("f1", "f2")]
+            scen.append((i, tg + st))
+        cfgp = tlc.make_cfg("Trace_Api", {"Props": props, "MaxPatch": "3"}, "Trace_Api_ev")
+        tv = tlc.validate_traces("Trace_Api", cfgp, scen, WORK, "trace_ev_" + tag, timeout=1200)
+        return len(uniq), len(tv["accepted"]), tv
+    n, acc, tv = emitted(None, "base")
+    good = n > 200 and acc == n
+    print("  design (all deviations off): %d distinct streams, %d accepted %s" % (n, acc, "ok" if good else "UNEXPECTED"))
+    if not good:
+        bad = next(s_ for s_ in tv["ids"] if s_ not in tv["accepted"])
+        print("    first rejected stream stops at", tv["progress"][bad])
+    ok = ok and good
+    for over in ({"DropOrder": '"forward"'}, {"FlushEntry": "FALSE"}, {"UnmapOnDrop": "FALSE"}):
+        n, acc, tv = emitted(over, "dev")
+        good = n > 50 and acc < n
+        print("  design with %-28s: %d streams, %d accepted, %d rejected %s" % (over, n, acc, n - acc, "ok" if good else "UNEXPECTED"))
+        ok = ok and good
     print("== trace corruption: TLC must reject")
     vlib.build_harness()
     hists, gr = gen_behaviours("MC_LifecycleApi_q")
